@@ -1637,7 +1637,7 @@ class Engine:
 
     def _contains(self, c, x):
         if isinstance(c, (list, tuple, set, frozenset, range)):
-            if not is_sym(x) and not any(is_sym(e) for e in c):
+            if not is_sym(x) and not _contains_sym(x) and not any(is_sym(e) or _contains_sym(e) for e in c):
                 try:
                     return x in c
                 except TypeError:
@@ -2372,7 +2372,7 @@ def _and2(a, b):
 
 
 def _contains_sym(v, depth=0):
-    if depth > 4:
+    if depth > 12:
         return False
     if is_sym(v):
         return True
